@@ -141,3 +141,156 @@ Theorem C02_pobj_example :
   = Py.Ok {| p_events := [[4;6]; []]%nat; p_nevents := 2; p_counts := [(1, 2); (2, 0)]%Z |}.
 Proof. exact pobj_example. Qed.
 Print Assumptions C02_pobj_example.
+
+(* ---- JETSCAPE (Model/Jetscape.v): single selectors, selections past the last event, constructor filters, sigmaGen ---- *)
+From SX Require Import Proofs.C02_JetscapeSel Proofs.C02_JetscapeExample.
+
+(* for ANY file (well-formed or not) and any constructor filter: events=k behaves exactly as events=(k,k) - every observable
+   the model records, including the 2-D shape flag of the count array that particle_list() consumes *)
+Theorem C02_jetscape_single_is_range :
+  forall tok_float tok_int pdg_valid pdg_charge usqrt defstr flt file k, (0 <= k)%Z ->
+  jload tok_float tok_int pdg_valid pdg_charge usqrt flt file defstr (SelOne k)
+  = jload tok_float tok_int pdg_valid pdg_charge usqrt flt file defstr (SelRange k k).
+Proof. exact jload_single_is_range. Qed.
+Print Assumptions C02_jetscape_single_is_range.
+
+(* events=k is event k of the unrestricted load: its particles, one event, the row (k+1, size) as a 2-D table, sigmaGen *)
+Theorem C02_jetscape_single :
+  forall tok_float tok_int pdg_valid pdg_charge usqrt defstr d s1 s2 (k : nat),
+  jwf tok_float tok_int pdg_valid pdg_charge usqrt defstr d s1 s2 -> (k < List.length (jd_events d))%nat ->
+  jload tok_float tok_int pdg_valid pdg_charge usqrt None (jrender d) defstr (SelOne (Z.of_nat k))
+  = Oscar.Ok (jsliced tok_float tok_int pdg_valid pdg_charge usqrt d s1 s2 k 1).
+Proof. exact jload_single. Qed.
+Print Assumptions C02_jetscape_single.
+
+(* [jsliced] really is the slice of the unrestricted load (C01: jload .. SelAll = Oscar.Ok (jexpected ..)), field by field *)
+Theorem C02_jetscape_sliced_is_slice :
+  forall tok_float tok_int pdg_valid pdg_charge usqrt d s1 s2 a n,
+  j_events (jsliced tok_float tok_int pdg_valid pdg_charge usqrt d s1 s2 a n)
+  = firstn n (skipn a (j_events (jexpected tok_float tok_int pdg_valid pdg_charge usqrt d s1 s2))) /\
+  j_counts (jsliced tok_float tok_int pdg_valid pdg_charge usqrt d s1 s2 a n)
+  = firstn n (skipn a (j_counts (jexpected tok_float tok_int pdg_valid pdg_charge usqrt d s1 s2))) /\
+  j_counts_2d (jsliced tok_float tok_int pdg_valid pdg_charge usqrt d s1 s2 a n)
+  = j_counts_2d (jexpected tok_float tok_int pdg_valid pdg_charge usqrt d s1 s2) /\
+  j_sigma (jsliced tok_float tok_int pdg_valid pdg_charge usqrt d s1 s2 a n)
+  = j_sigma (jexpected tok_float tok_int pdg_valid pdg_charge usqrt d s1 s2) /\
+  j_nevents (jsliced tok_float tok_int pdg_valid pdg_charge usqrt d s1 s2 a n) = Z.of_nat n.
+Proof. exact jsliced_is_slice. Qed.
+Print Assumptions C02_jetscape_sliced_is_slice.
+
+(* the property stated on the two loads themselves *)
+Theorem C02_jetscape_range_is_slice_of_full_load :
+  forall tok_float tok_int pdg_valid pdg_charge usqrt defstr d s1 s2 (a b : nat),
+  jwf tok_float tok_int pdg_valid pdg_charge usqrt defstr d s1 s2 ->
+  (a <= b)%nat -> (b < List.length (jd_events d))%nat ->
+  exists full,
+    jload tok_float tok_int pdg_valid pdg_charge usqrt None (jrender d) defstr SelAll = Oscar.Ok full /\
+    jload tok_float tok_int pdg_valid pdg_charge usqrt None (jrender d) defstr (SelRange (Z.of_nat a) (Z.of_nat b))
+    = Oscar.Ok {| j_events := firstn (b - a + 1) (skipn a (j_events full));
+            j_nevents := Z.of_nat (b - a + 1);
+            j_counts := firstn (b - a + 1) (skipn a (j_counts full));
+            j_counts_2d := j_counts_2d full;
+            j_sigma := j_sigma full |}.
+Proof. exact jload_range_vs_full. Qed.
+Print Assumptions C02_jetscape_range_is_slice_of_full_load.
+
+(* a selection reaching past the last event is rejected with IndexError (with or without a constructor filter),
+   never wrapped to another event *)
+Theorem C02_jetscape_out_of_range :
+  forall tok_float tok_int pdg_valid pdg_charge usqrt defstr flt d s1 s2 (a b : nat),
+  jwf tok_float tok_int pdg_valid pdg_charge usqrt defstr d s1 s2 ->
+  (a <= b)%nat -> (List.length (jd_events d) <= b)%nat ->
+  jload tok_float tok_int pdg_valid pdg_charge usqrt flt (jrender d) defstr (SelRange (Z.of_nat a) (Z.of_nat b))
+  = Oscar.Err Oscar.IndexError.
+Proof. exact jload_range_oob. Qed.
+Print Assumptions C02_jetscape_out_of_range.
+
+Theorem C02_jetscape_single_out_of_range :
+  forall tok_float tok_int pdg_valid pdg_charge usqrt defstr flt d s1 s2 (k : nat),
+  jwf tok_float tok_int pdg_valid pdg_charge usqrt defstr d s1 s2 -> (List.length (jd_events d) <= k)%nat ->
+  jload tok_float tok_int pdg_valid pdg_charge usqrt flt (jrender d) defstr (SelOne (Z.of_nat k)) = Oscar.Err Oscar.IndexError.
+Proof. exact jload_single_oob. Qed.
+Print Assumptions C02_jetscape_single_out_of_range.
+
+(* with a constructor filter f (ANY function on one event's particle list): select, then filter.  Every selected event is
+   filtered on its own; an event the filter empties is dropped unless it was empty in the file; the count rows are those
+   of the events kept, labelled consecutively from the first selected label a+1 (what the code does: the labels after a
+   dropped event are decremented) *)
+Theorem C02_jetscape_range_with_filter :
+  forall tok_float tok_int pdg_valid pdg_charge usqrt defstr (f : list particle -> list particle) d s1 s2 (a b : nat),
+  jwf tok_float tok_int pdg_valid pdg_charge usqrt defstr d s1 s2 ->
+  (a <= b)%nat -> (b < List.length (jd_events d))%nat ->
+  jload tok_float tok_int pdg_valid pdg_charge usqrt (Some f) (jrender d) defstr (SelRange (Z.of_nat a) (Z.of_nat b))
+  = Oscar.Ok (jfiltered tok_float tok_int pdg_valid pdg_charge usqrt f d s1 s2 a (b - a + 1)).
+Proof. exact jload_range_filtered. Qed.
+Print Assumptions C02_jetscape_range_with_filter.
+
+Theorem C02_jetscape_single_with_filter :
+  forall tok_float tok_int pdg_valid pdg_charge usqrt defstr (f : list particle -> list particle) d s1 s2 (k : nat),
+  jwf tok_float tok_int pdg_valid pdg_charge usqrt defstr d s1 s2 -> (k < List.length (jd_events d))%nat ->
+  jload tok_float tok_int pdg_valid pdg_charge usqrt (Some f) (jrender d) defstr (SelOne (Z.of_nat k))
+  = Oscar.Ok (jfiltered tok_float tok_int pdg_valid pdg_charge usqrt f d s1 s2 k 1).
+Proof. exact jload_single_filtered. Qed.
+Print Assumptions C02_jetscape_single_with_filter.
+
+Theorem C02_jetscape_filtered_is_select_then_filter :
+  forall tok_float tok_int pdg_valid pdg_charge usqrt (f : list particle -> list particle) d s1 s2 a n,
+  match j_events (jfiltered tok_float tok_int pdg_valid pdg_charge usqrt f d s1 s2 a n) with
+  | [[]] => kept f (j_events (jsliced tok_float tok_int pdg_valid pdg_charge usqrt d s1 s2 a n)) = [] \/
+            kept f (j_events (jsliced tok_float tok_int pdg_valid pdg_charge usqrt d s1 s2 a n)) = [[]]
+  | evs => evs = kept f (j_events (jsliced tok_float tok_int pdg_valid pdg_charge usqrt d s1 s2 a n))
+  end /\
+  map snd (j_counts (jfiltered tok_float tok_int pdg_valid pdg_charge usqrt f d s1 s2 a n))
+  = map (fun ev => Z.of_nat (List.length ev))
+        (kept f (j_events (jsliced tok_float tok_int pdg_valid pdg_charge usqrt d s1 s2 a n))) /\
+  j_nevents (jfiltered tok_float tok_int pdg_valid pdg_charge usqrt f d s1 s2 a n)
+  = Z.of_nat (List.length (kept f (j_events (jsliced tok_float tok_int pdg_valid pdg_charge usqrt d s1 s2 a n)))) /\
+  j_counts_2d (jfiltered tok_float tok_int pdg_valid pdg_charge usqrt f d s1 s2 a n) = true /\
+  j_sigma (jfiltered tok_float tok_int pdg_valid pdg_charge usqrt f d s1 s2 a n)
+  = j_sigma (jsliced tok_float tok_int pdg_valid pdg_charge usqrt d s1 s2 a n).
+Proof. exact jfiltered_is_select_then_filter. Qed.
+Print Assumptions C02_jetscape_filtered_is_select_then_filter.
+
+(* labels under a filter: row i carries a+1+i; when the filter drops no selected event these are the ORIGINAL labels of
+   the selected events and the counts are the filtered sizes, event by event *)
+Theorem C02_jetscape_filter_labels :
+  forall tok_float tok_int pdg_valid pdg_charge usqrt (f : list particle -> list particle) d s1 s2 a n,
+  (forall i c, nth_error (j_counts (jfiltered tok_float tok_int pdg_valid pdg_charge usqrt f d s1 s2 a n)) i = Some c ->
+               fst c = (Z.of_nat a + 1 + Z.of_nat i)%Z) /\
+  ((a + n <= List.length (jd_events d))%nat ->
+   Forall (fun ev => keeps f ev = true) (j_events (jsliced tok_float tok_int pdg_valid pdg_charge usqrt d s1 s2 a n)) ->
+   map fst (j_counts (jfiltered tok_float tok_int pdg_valid pdg_charge usqrt f d s1 s2 a n))
+   = map fst (j_counts (jsliced tok_float tok_int pdg_valid pdg_charge usqrt d s1 s2 a n)) /\
+   map snd (j_counts (jfiltered tok_float tok_int pdg_valid pdg_charge usqrt f d s1 s2 a n))
+   = map (fun ev => Z.of_nat (List.length (f ev)))
+         (j_events (jsliced tok_float tok_int pdg_valid pdg_charge usqrt d s1 s2 a n))).
+Proof. exact jfiltered_labels. Qed.
+Print Assumptions C02_jetscape_filter_labels.
+
+(* sigmaGen is read from the last line only: any two successful loads of the same file - whatever the selections and
+   constructor filters - report the same pair *)
+Theorem C02_jetscape_sigma_unaffected :
+  forall tok_float tok_int pdg_valid pdg_charge usqrt defstr flt1 flt2 file sel1 sel2 r1 r2,
+  jload tok_float tok_int pdg_valid pdg_charge usqrt flt1 file defstr sel1 = Oscar.Ok r1 ->
+  jload tok_float tok_int pdg_valid pdg_charge usqrt flt2 file defstr sel2 = Oscar.Ok r2 ->
+  j_sigma r1 = j_sigma r2.
+Proof. exact jload_sigma_indep. Qed.
+Print Assumptions C02_jetscape_sigma_unaffected.
+
+(* non-vacuity: a concrete four-event hadron document (event 2 empty, event 3 a single photon) is well-formed ... *)
+Theorem C02_jetscape_example_wf : jwf exj_tf exj_ti exj_pv exj_pc exj_sqrt "N_hadrons" exj_doc (3#2) (1#8).
+Proof. exact exj_wf. Qed.
+Print Assumptions C02_jetscape_example_wf.
+
+(* ... events=(1,3) keeps labels 2..4; with the charged-particle filter the empty event 2 stays, event 3 is dropped and the
+   event read after it is relabelled 3; events=2 with the filter leaves no event; events=4 is IndexError *)
+Theorem C02_jetscape_example :
+  exj_summary (jload exj_tf exj_ti exj_pv exj_pc exj_sqrt None (jrender exj_doc) "N_hadrons" (SelRange 1 3))
+  = Some ([0; 1; 1]%nat, 3%Z, [(2, 0); (3, 1); (4, 1)]%Z, true, ((3#2)%Q, (1#8)%Q)) /\
+  exj_summary (jload exj_tf exj_ti exj_pv exj_pc exj_sqrt (Some exj_charged) (jrender exj_doc) "N_hadrons" (SelRange 1 3))
+  = Some ([0; 1]%nat, 2%Z, [(2, 0); (3, 1)]%Z, true, ((3#2)%Q, (1#8)%Q)) /\
+  exj_summary (jload exj_tf exj_ti exj_pv exj_pc exj_sqrt (Some exj_charged) (jrender exj_doc) "N_hadrons" (SelOne 2))
+  = Some ([0]%nat, 0%Z, [], true, ((3#2)%Q, (1#8)%Q)) /\
+  jload exj_tf exj_ti exj_pv exj_pc exj_sqrt None (jrender exj_doc) "N_hadrons" (SelOne 4) = Oscar.Err Oscar.IndexError.
+Proof. exact exj_loads. Qed.
+Print Assumptions C02_jetscape_example.
